@@ -88,7 +88,7 @@ def run(res, tier, rng, table_diffs=()):
     sessions += compile_fail
     reqs += ["session 100000 " + " ".join(hx(l) for l in s) for s in compile_fail]
     from .. import gen2
-    ftd = gen2.failure_then_declaration_sessions()
+    ftd = gen2.failure_then_declaration_sessions() + gen2.declare_then_fail_sessions()
     sessions += ftd
     reqs += ["session 100000 " + " ".join(hx(l) for l in s) for s in ftd]
     sessions += never_written
